@@ -628,6 +628,75 @@ func c15Paced(w *core.W, g *model.Gen, zone model.Name, j int, ixfr bool) {
 	}
 }
 
+// c15FullEnvelopes: a sender that fills envelopes to the brim: the first, a middle or the only
+// envelope is exactly 65535 (or 65534, 65533) octets on the wire.
+func c15FullEnvelopes(w *core.W, g *model.Gen, zone model.Name, j int) {
+	target := []int{65535, 65534, 65535, 65533}[j/16%4]
+	where := j / 64 % 3 // 0: everything in one envelope, 1: full first envelope, 2: full middle envelope
+	kind := []int{0, 2, 3}[j/16%3]
+	s := c15MakeStream(g, zone, kind)
+	qn := mustName(s.query(zone, 1).Question[0].Name)
+	qt := s.query(zone, 1).Question[0].Qtype
+	size := func(recs []*model.Rec) int {
+		return len((&model.Msg{Q: []model.Question{{Name: qn, Type: qt, Class: 1}}, An: recs}).Wire())
+	}
+	filler := func(need int) *model.Rec {
+		owner := append(model.Name{[]byte("fill")}, zone...)
+		R := need - owner.WireLen() - 10
+		if R < 1 {
+			return nil
+		}
+		rem := (R - 1) % 256
+		var strs [][]byte
+		for k := (R - 1 - rem) / 256; k > 0; k-- {
+			strs = append(strs, g.TextBytes(255))
+		}
+		strs = append(strs, g.TextBytes(rem))
+		return &model.Rec{Owner: owner, Type: 16, Class: 1, TTL: 300, L: model.Layouts[16], Vals: []any{strs}}
+	}
+	last := len(s.recs) - 1
+	var comp uint64
+	var recs []*model.Rec
+	switch {
+	case where == 0 || last < 2:
+		f := filler(target - size(s.recs))
+		if f == nil {
+			return
+		}
+		recs = append(append(append([]*model.Rec(nil), s.recs[:last]...), f), s.recs[last])
+		comp = 0
+	case where == 1:
+		// first envelope: SOA + filler, the rest in a second one
+		f := filler(target - size(s.recs[:1]))
+		recs = append(append([]*model.Rec{s.recs[0], f}), s.recs[1:]...)
+		comp = 1 << 1
+	default:
+		// SOA alone, then a full envelope holding the filler and everything but the closing SOA
+		f := filler(target - size(s.recs[1:last]))
+		recs = append(append(append([]*model.Rec{s.recs[0], f}), s.recs[1:last]...), s.recs[last])
+		comp = 1<<0 | 1<<uint(len(recs)-2)
+	}
+	for _, r := range recs {
+		if r == nil {
+			return
+		}
+	}
+	s.recs = recs
+	found := false
+	for _, e := range compose(recs, comp) {
+		if size(e) == target {
+			found = true
+		}
+	}
+	if !found {
+		w.Count("full_envelope_size_missed", 1)
+		return
+	}
+	w.Count("full_envelope_transfers", 1)
+	w.Cover("full_envelope", fmt.Sprintf("%d/%s/%d", target, s.kind, where))
+	c15Good(w, s, zone, comp, false, uint16(1+j%60000), false)
+}
+
 func c15Case(w *core.W, j int) {
 	g := model.NewGen(w.Rng(j))
 	g.NoHuge = true
@@ -637,6 +706,9 @@ func c15Case(w *core.W, j int) {
 	c15Datagram(w, g, zone, j)
 	if j%16 == 5 {
 		c15Paced(w, g, zone, j, j%32 == 5)
+	}
+	if j%16 == 9 {
+		c15FullEnvelopes(w, g, zone, j)
 	}
 	s := c15MakeStream(g, zone, j%4)
 	n := len(s.recs)
@@ -766,7 +838,7 @@ func init() {
 	)
 	core.Register(&core.Monitor{
 		ID: "C15", Level: "fault_enumeration", Plan: plan, Run: run, Race: true, Terminates: true, MaxParallel: 16, CaseTimeout: 300e9,
-		Rule: "the harness is the primary: AXFR, IXFR up-to-date, IXFR AXFR-style and incremental IXFR (1..3 difference sequences) streams of model records, all 2^(n-1) envelope compositions for n<=6 records (sampled above, always incl. all-in-one, one-per-envelope, SOA alone first/last), with and without an independently computed RFC 8945 MAC chain; " +
+		Rule: "the harness is the primary: AXFR, IXFR up-to-date, IXFR AXFR-style and incremental IXFR (1..3 difference sequences) streams of model records, all 2^(n-1) envelope compositions for n<=6 records (sampled above, always incl. all-in-one, one-per-envelope, SOA alone first/last; envelopes of exactly 65533..65535 octets as the only, first or a middle one), with and without an independently computed RFC 8945 MAC chain; " +
 			"faults: first record not SOA, error RCODE / foreign ID / altered / unsigned / wrongly keyed / reordered envelope, or envelopes forged with a zero-length MAC from that index on, at every envelope index (<=6, else first and last three), extra envelope after the end, EOF at every octet (transfers <= 260 octets) or sampled; " +
 			"oracle: delivered records == transmitted up to the closing SOA (RFC 5936 / RFC 1995), channel and connection closed exactly once, every fault run ends with an Error envelope; non-trivial = distinct (stream kind, envelope sizes, fault, position)",
 		Assumptions: []string{"envelopes are signed at the real current time with fudge 300, far from the window boundary"},
